@@ -64,6 +64,44 @@ let show_struct = function
   | OB b -> names b.b_inputs ^ ":" ^ string_of_int (int_of_nat b.b_nv) ^ ":" ^ show_dd b.b_root
 let kind_char = function OE _ -> "E" | OT _ -> "T" | OB _ -> "B"
 
+let lhex_of_name x = let h = hex_of_name x in if h = "-" then "" else h
+let rec show_tok = function
+  | TAnd -> "And" | TOr -> "Or" | TNot -> "Not" | TTrue -> "T" | TFalse -> "F"
+  | TLit x -> "L" ^ lhex_of_name x
+  | TParens l -> "P" ^ show_toks l
+and show_toks l = "[" ^ String.concat "," (List.map show_tok l) ^ "]"
+let show_tok_err = function
+  | UnexpectedClosingParenthesis p -> Printf.sprintf "err:UnexpectedClosingParenthesis@%d" (int_of_nat p)
+  | MissingClosingParenthesis p -> Printf.sprintf "err:MissingClosingParenthesis@%d" (int_of_nat p)
+  | UnexpectedClosingCurlyBrace p -> Printf.sprintf "err:UnexpectedClosingCurlyBrace@%d" (int_of_nat p)
+  | MissingClosingCurlyBrace p -> Printf.sprintf "err:MissingClosingCurlyBrace@%d" (int_of_nat p)
+  | EmptyLiteralName p -> Printf.sprintf "err:EmptyLiteralName@%d" (int_of_nat p)
+  | UnknownSymbolError p -> Printf.sprintf "err:UnknownSymbolError@%d" (int_of_nat p)
+  | UnexpectedWhitespace -> "err:UnexpectedWhitespace"
+let show_perr = function
+  | EmptySideOfOperator -> "err:EmptySideOfOperator"
+  | UnexpectedLiteralsGroup -> "err:UnexpectedLiteralsGroup"
+
+let tv_limit = 12
+(* semantic digest of an expression: inputs and truth vector (skipped above tv_limit inputs) *)
+let digest (e : expr) =
+  let ins = literals e in
+  let tv = if List.length ins > tv_limit then "skip" else bits (obj_tv (OE e)) in
+  (names ins, tv)
+
+let parse_fields (s : name) : string * expr option =
+  let tk = tokenize s in
+  let tok = (match tk with TokOk t -> show_toks t | TokErr e -> show_tok_err e | TokFuel -> "fuel") in
+  let (parse, show, eo) = (match from_str_full s with
+    | ParsedOk e -> (show_expr e, hex_of_name (display e), Some e)
+    | TokenizingError e -> (show_tok_err e, "-", None)
+    | ParsingError e -> (show_perr e, "-", None)
+    | ParsePanic c -> (Printf.sprintf "panic%d" (int_of_nat c), "-", None)) in
+  let pt = (match tk with
+    | TokOk t -> (match parse_tokens t with POk e -> show_expr e | PErr e -> show_perr e | PPanic -> "panic")
+    | _ -> "-") in
+  (Printf.sprintf "tok=%s parse=%s pt=%s show=%s" tok parse pt show, eo)
+
 (* ---- parsing ---- *)
 exception Bad of string
 let rec parse_pe toks =
@@ -110,6 +148,7 @@ let parse_instr toks : instr =
   | "nary" :: o :: n :: r -> INary (o = "and", List.map reg_of (take (int_of_string n) r))
   | ["binary"; o; i; j] -> IBinary (o = "and", reg_of i, reg_of j)
   | ["negate"; i] -> INegate (reg_of i)
+  | ["parse"; h] -> IParse (name_of_hex h)
   | t :: _ -> raise (Bad ("instr " ^ t))
   | [] -> raise (Bad "empty instr")
 
@@ -181,6 +220,37 @@ let query (p : pool) toks : string =
              (match m with Ok v -> if v then "1" else "0" | Err _ -> "na" | Panic _ -> "panic")
              (if s then "1" else "0")
        | _, _ -> "skip")
+  | ["parse"; h] ->
+      (* the specification of a parse is the meaning of the reference reading, which the model's
+         result is proved to be (C12_from_str_is_reference) *)
+      let (f, eo) = parse_fields (name_of_hex h) in
+      (match eo with
+       | Some e -> let (i, tv) = digest e in
+                   Printf.sprintf "%s acc=1 inputs=%s tv=%s s.acc=1 s.rel=eq s.inputs=%s s.tv=%s" f i tv i tv
+       | None -> Printf.sprintf "%s acc=0 s.acc=0" f)
+  | ["show"; i] ->
+      (match get i with
+       | Some { e_obj = OE x; _ } -> Printf.sprintf "show=%s" (hex_of_name (display x))
+       | _ -> "skip")
+  | "roundtrip" :: i :: flags ->
+      (* flags: `printable` (names are identifiers other than keywords, no empty And/Or: the text must
+         parse back to the same function over the same variables), `proper` (every And/Or has >= 2
+         operands: the same tree) -- theorems C14_round_trip_meaning / C14_round_trip_exact *)
+      (match get i with
+       | Some { e_obj = OE x; _ } ->
+           let text = display x in
+           let (fl, eo) = parse_fields text in
+           let spec =
+             (if List.mem "printable" flags then
+                Printf.sprintf " s.acc=1 s.rel=eq s.inputs=%s s.tv=%s" (names (literals x))
+                  (if List.length (literals x) > tv_limit then "skip" else bits (obj_tv (OE x)))
+              else "") ^
+             (if List.mem "proper" flags then " s.parse=" ^ show_expr x else "") in
+           (match eo with
+            | Some e -> let (i2, tv) = digest e in
+                        Printf.sprintf "text=%s %s acc=1 inputs=%s tv=%s%s" (hex_of_name text) fl i2 tv spec
+            | None -> Printf.sprintf "text=%s %s acc=0%s" (hex_of_name text) fl spec)
+       | _ -> "skip")
   | ["preds"; i] ->
       (match get i with
        | Some { e_obj = OE x; _ } ->
